@@ -5,10 +5,10 @@ V = os.path.dirname(os.path.dirname(os.path.abspath(__file__)))
 props = [json.loads(l) for l in open(os.path.join(V, "properties.jsonl"))]
 CHECKS = {
  "C01": ("exploration", "invariant hook over live IR state at every outermost mutator exit (runtime monitor, random call histories)",
-         "I1-I5 evaluated over the whole universe of touched objects after every call of thousands of random valid/invalid mutator histories, and inside readers-free transforms (uniquify/flatten/clone) via the probe layer. Held-on-observed, not universal.",
+         "I1-I5 evaluated over the whole universe of touched objects after every call of thousands of random valid/invalid mutator histories, and inside uniquify/flatten/clone via the probe layer; the thorough tier also runs the repository's own test suite under the same monitor (DESIGN 8.2). Held-on-observed, not universal.",
          "oracle reads only the public read API; proxy outer pins are inputs; one naming policy per history", "4 C01"),
  "C02": ("exploration", "invariant hook + transition monitors (dropped outer pins, re-point keeps connections) at every outermost mutator exit",
-         "I6-I9 after every call of 'mirror'-profile histories (few definitions, many instances, port/pin/reference edits). Held-on-observed.",
+         "I6-I9 after every call of 'mirror'-profile histories (few definitions, many instances, port/pin/reference edits); the thorough tier also runs the repository's own test suite under the I6-I8 monitor (DESIGN 8.2). Held-on-observed.",
          "pin-map order not checked; oracle reads only the public read API", "4 C02"),
  "C14": ("fault_enumeration", "before/after identity-level snapshot of the whole universe around every refused outermost mutator call (runtime monitor over hostile call histories)",
          "every refused call (mutator x invalid-argument class, appendix A) of hostile random histories is one injected fault; snapshot incl. order, connections, reference sets, data, bundle attributes, naming policy, the namespace manager's name tables and (1/3 of histories) public exact-name lookup answers must be identical. Fault classes are enumerated per reachable state, states are explored randomly.",
